@@ -8,6 +8,7 @@ import (
 
 	"golang.org/x/tools/go/ssa"
 
+	"verif/checker/internal/cfgutil"
 	"verif/checker/internal/engine"
 	"verif/checker/internal/load"
 	"verif/checker/internal/regions"
@@ -16,6 +17,7 @@ import (
 
 func init() {
 	engine.Register("V-INPUT-PURE", ruleVInputPure)
+	engine.Register("V-BOOL", ruleVBool)
 }
 
 // queryFamily: functions whose receiver type is a query, comparator or validator type
@@ -228,4 +230,772 @@ func ruleVInputPure(c *engine.Context) *report.Rule {
 			"the result of %s may be the member list it was given, and verdict lists are blanked in place (%s)", strings.Join(names, ", "), strings.Join(wdesc, "; "))
 	}
 	return r
+}
+
+// ---------------------------------------------------------------------------------------------
+// V-BOOL: the logical operators realise AND / OR / NOT member by member.
+//
+// Every logical node evaluates its operand queries over the member list it was given and merges
+// the verdict lists. A verdict list is either a whole-match list (length 1: marker = false for
+// every member, anything else = true for every member) or a per-member list (marker = false).
+// The rule executes the compute method symbolically: for every path, and for every path through
+// the merge loop, the truth value of the returned list at a member is a function of the operands'
+// truth values (l, r) at that member; it must equal the operator's truth table on every row the
+// path conditions allow.
+
+type boolShape int
+
+const (
+	shUnknown boolShape = iota
+	shOne
+	shNotOne
+)
+
+type boolFacts struct {
+	shape [2]boolShape
+	all   [2]int // -1 unknown, 0 every member false, 1 every member true (whole-match lists)
+	elem  [2]int // within one iteration: -1 unknown, 0 member false, 1 member true
+}
+
+func newBoolFacts() boolFacts {
+	return boolFacts{all: [2]int{-1, -1}, elem: [2]int{-1, -1}}
+}
+
+// rows enumerates the (l, r) rows compatible with the facts.
+func (f boolFacts) rows(arity int) [][2]bool {
+	var out [][2]bool
+	for l := 0; l < 2; l++ {
+		for r := 0; r < 2; r++ {
+			if arity == 1 && r == 1 {
+				continue
+			}
+			v := [2]int{l, r}
+			ok := true
+			for k := 0; k < arity; k++ {
+				if f.all[k] >= 0 && f.all[k] != v[k] {
+					ok = false
+				}
+				if f.elem[k] >= 0 && f.elem[k] != v[k] {
+					ok = false
+				}
+			}
+			if ok {
+				out = append(out, [2]bool{l == 1, r == 1})
+			}
+		}
+	}
+	return out
+}
+
+// truth of a returned list at one member as a function of the row.
+type boolRes struct {
+	kind int // 0 const false, 1 const true, 2 operand k
+	k    int
+}
+
+func (b boolRes) eval(row [2]bool) bool {
+	switch b.kind {
+	case 0:
+		return false
+	case 1:
+		return true
+	}
+	return row[b.k]
+}
+
+func (b boolRes) String() string {
+	switch b.kind {
+	case 0:
+		return "false"
+	case 1:
+		return "true"
+	}
+	return []string{"left", "right"}[b.k]
+}
+
+type boolAnalysis struct {
+	p        *load.Program
+	fn       *ssa.Function
+	arity    int
+	list     *ssa.Parameter
+	operand  map[ssa.Value]int // operand call value -> operand index
+	problems []string          // shape not recognised (undischarged)
+	failures []string          // truth table / guard violations
+	checked  int               // rows checked
+	scen     int               // scenarios (paths x iteration paths)
+}
+
+func (ba *boolAnalysis) problem(format string, a ...interface{}) {
+	ba.problems = append(ba.problems, fmt.Sprintf(format, a...))
+}
+func (ba *boolAnalysis) fail(format string, a ...interface{}) {
+	ba.failures = append(ba.failures, fmt.Sprintf(format, a...))
+}
+
+// operandOf resolves a list value to an operand index.
+func (ba *boolAnalysis) operandOf(v ssa.Value) (int, bool) {
+	if k, ok := ba.operand[v]; ok {
+		return k, true
+	}
+	if ph, ok := v.(*ssa.Phi); ok {
+		k0 := -1
+		for _, e := range ph.Edges {
+			k, ok := ba.operand[e]
+			if !ok || (k0 >= 0 && k != k0) {
+				return 0, false
+			}
+			k0 = k
+		}
+		if k0 >= 0 {
+			return k0, true
+		}
+	}
+	return 0, false
+}
+
+// elemOf: v is a load of X[idx] with X an operand list.
+func (ba *boolAnalysis) elemOf(v ssa.Value) (k int, idx ssa.Value, ok bool) {
+	ld, isLd := v.(*ssa.UnOp)
+	if !isLd || ld.Op.String() != "*" {
+		return 0, nil, false
+	}
+	ia, isIA := ld.X.(*ssa.IndexAddr)
+	if !isIA {
+		return 0, nil, false
+	}
+	k, ok = ba.operandOf(ia.X)
+	return k, ia.Index, ok
+}
+
+// markerTest: cond is `X[idx] == marker` (neg for !=) or a call of a marker predicate helper.
+func (ba *boolAnalysis) markerTest(cond ssa.Value) (k int, idx ssa.Value, neg bool, ok bool) {
+	cond, outerNeg := unwrapNot(cond)
+	switch c := cond.(type) {
+	case *ssa.BinOp:
+		if c.Op.String() != "==" && c.Op.String() != "!=" {
+			return
+		}
+		var e ssa.Value
+		if isMarkerValue(ba.p, c.Y) {
+			e = c.X
+		} else if isMarkerValue(ba.p, c.X) {
+			e = c.Y
+		} else {
+			return
+		}
+		k, idx, ok = ba.elemOf(e)
+		neg = (c.Op.String() == "!=") != outerNeg
+		return
+	case *ssa.Call:
+		if sc := c.Call.StaticCallee(); sc != nil && len(c.Call.Args) == 1 {
+			if n, isPred := markerPredicate(ba.p, sc); isPred {
+				k, idx, ok = ba.elemOf(c.Call.Args[0])
+				neg = n != outerNeg
+				return
+			}
+		}
+	}
+	return
+}
+
+// lenIsOne: cond is len(X) == 1 (neg for !=).
+func (ba *boolAnalysis) lenIsOne(cond ssa.Value) (k int, neg bool, ok bool) {
+	cond, outerNeg := unwrapNot(cond)
+	bo, isBo := cond.(*ssa.BinOp)
+	if !isBo || (bo.Op.String() != "==" && bo.Op.String() != "!=") {
+		return
+	}
+	var lv ssa.Value
+	if c, isC := cfgutilConst(bo.Y); isC && c == 1 {
+		lv = bo.X
+	} else if c, isC := cfgutilConst(bo.X); isC && c == 1 {
+		lv = bo.Y
+	} else {
+		return
+	}
+	x, isLen := lenArg(lv)
+	if !isLen {
+		return
+	}
+	k, ok = ba.operandOf(x)
+	neg = (bo.Op.String() == "!=") != outerNeg
+	return
+}
+
+func (ba *boolAnalysis) sentinel(v ssa.Value) (boolRes, bool) {
+	ld, ok := v.(*ssa.UnOp)
+	if !ok || ld.Op.String() != "*" {
+		return boolRes{}, false
+	}
+	switch ld.X {
+	case ssa.Value(ba.p.Roles.MarkerList):
+		return boolRes{kind: 0}, true
+	case ssa.Value(ba.p.Roles.FullList):
+		return boolRes{kind: 1}, true
+	}
+	return boolRes{}, false
+}
+
+type boolIter struct {
+	facts   boolFacts
+	final   map[int]boolRes // operand list -> truth of its element after the iteration
+	flagSet int             // 1 set true, 0 unchanged, -1 unknown
+	desc    string
+}
+
+func opTable(op string, row [2]bool) bool {
+	switch op {
+	case "and":
+		return row[0] && row[1]
+	case "or":
+		return row[0] || row[1]
+	}
+	return !row[0]
+}
+
+func rowString(arity int, row [2]bool) string {
+	if arity == 1 {
+		return fmt.Sprintf("operand=%v", row[0])
+	}
+	return fmt.Sprintf("left=%v right=%v", row[0], row[1])
+}
+
+// analyseBoolNode runs the symbolic execution of one logical node's compute method.
+func analyseBoolNode(p *load.Program, fn *ssa.Function, list *ssa.Parameter, arity int, op string) *boolAnalysis {
+	ba := &boolAnalysis{p: p, fn: fn, arity: arity, list: list, operand: map[ssa.Value]int{}}
+	recv := fn.Params[0]
+	var root *ssa.Parameter
+	for _, prm := range fn.Params[1:] {
+		if prm != list {
+			root = prm
+		}
+	}
+	// operand calls
+	for _, b := range fn.Blocks {
+		for _, ins := range b.Instrs {
+			call, ok := ins.(*ssa.Call)
+			if !ok || !isIfaceSliceT(call.Type()) {
+				continue
+			}
+			if _, isB := call.Call.Value.(*ssa.Builtin); isB {
+				continue
+			}
+			// receiver: load of a field of recv
+			var rv ssa.Value
+			var args []ssa.Value
+			if call.Call.IsInvoke() {
+				rv, args = call.Call.Value, call.Call.Args
+			} else if len(call.Call.Args) > 0 {
+				rv, args = call.Call.Args[0], call.Call.Args[1:]
+			}
+			ld, isLd := rv.(*ssa.UnOp)
+			var fa *ssa.FieldAddr
+			if isLd {
+				fa, _ = ld.X.(*ssa.FieldAddr)
+			}
+			if fa == nil || fa.X != ssa.Value(recv) || fa.Field >= arity {
+				ba.problem("call %s producing a list is not an evaluation of one of the node's operand fields", call.String())
+				continue
+			}
+			okArgs := len(args) == 2
+			if okArgs {
+				for _, a := range args {
+					if a != ssa.Value(root) && a != ssa.Value(list) {
+						okArgs = false
+					}
+				}
+			}
+			if !okArgs {
+				ba.fail("operand %s is evaluated over something other than the node's own (root, member list): the operands of one operator must see the same members", []string{"left", "right"}[fa.Field])
+				continue
+			}
+			ba.operand[call] = fa.Field
+		}
+	}
+	seen := map[int]bool{}
+	for _, k := range ba.operand {
+		seen[k] = true
+	}
+	for k := 0; k < arity; k++ {
+		if !seen[k] {
+			ba.problem("operand field %d is never evaluated", k)
+		}
+	}
+	loops := cfgutil.Loops(fn)
+	if len(loops) > 1 {
+		ba.problem("more than one loop")
+		return ba
+	}
+	var loop *cfgutil.Loop
+	var ind *cfgutil.Induction
+	var flag *ssa.Phi
+	loopOver := -1
+	if len(loops) == 1 {
+		loop = loops[0]
+		ind = cfgutil.Classify(loop)
+		if ind.Kind != cfgutil.LoopAscending {
+			ba.problem("the merge loop is not a complete ascending index loop")
+			return ba
+		}
+		x, ok := lenArg(ind.Bound)
+		if !ok {
+			ba.problem("the merge loop is not bounded by the length of a verdict list")
+			return ba
+		}
+		k, ok := ba.operandOf(x)
+		if !ok {
+			ba.problem("the merge loop is not bounded by the length of an operand's verdict list")
+			return ba
+		}
+		loopOver = k
+		for _, e := range loop.Exits {
+			if e.From != loop.Header {
+				ba.fail("the merge loop can be left before every member was merged")
+			}
+		}
+		for _, ins := range loop.Header.Instrs {
+			if ph, ok := ins.(*ssa.Phi); ok && ph != ind.Phi {
+				if b, ok := ph.Type().Underlying().(*types.Basic); ok && b.Kind() == types.Bool {
+					flag = ph
+				}
+			}
+		}
+	}
+	// iteration summaries
+	var iters []*boolIter
+	iterProblem := false
+	if loop != nil {
+		body := loop.Header.Succs[0]
+		if !loop.Blocks[body] {
+			body = loop.Header.Succs[1]
+		}
+		var walk func(b *ssa.BasicBlock, it boolIter, on map[*ssa.BasicBlock]bool)
+		walk = func(b *ssa.BasicBlock, it boolIter, on map[*ssa.BasicBlock]bool) {
+			// copy
+			nf := map[int]boolRes{}
+			for k, v := range it.final {
+				nf[k] = v
+			}
+			it.final = nf
+			for _, ins := range b.Instrs {
+				st, ok := ins.(*ssa.Store)
+				if !ok {
+					continue
+				}
+				ia, isIA := st.Addr.(*ssa.IndexAddr)
+				if !isIA {
+					continue
+				}
+				k, isOp := ba.operandOf(ia.X)
+				if !isOp {
+					if isIfaceSliceT(ia.X.Type()) {
+						ba.problem("store into a list that is not an operand's verdict list")
+						iterProblem = true
+					}
+					continue
+				}
+				if ia.Index != ind.Index {
+					ba.problem("store at an index other than the loop index")
+					iterProblem = true
+					continue
+				}
+				switch {
+				case isMarkerValue(p, st.Val):
+					it.final[k] = boolRes{kind: 0}
+				default:
+					if k2, idx2, isElem := ba.elemOf(st.Val); isElem && idx2 == ind.Index {
+						// value of the other list at this member (as it was when loaded: loads precede stores of the same list in these bodies)
+						if r, has := it.final[k2]; has {
+							it.final[k] = r
+						} else {
+							it.final[k] = boolRes{kind: 2, k: k2}
+						}
+					} else if mi, isMI := st.Val.(*ssa.MakeInterface); isMI {
+						if _, isC := mi.X.(*ssa.Const); isC && !types.Identical(mi.X.Type(), p.Roles.Marker.Type().(*types.Pointer).Elem()) {
+							it.final[k] = boolRes{kind: 1}
+						} else {
+							ba.problem("store of a value that is neither the marker, a constant nor the other operand's member verdict")
+							iterProblem = true
+						}
+					} else {
+						ba.problem("store of a value that is neither the marker, a constant nor the other operand's member verdict")
+						iterProblem = true
+					}
+				}
+			}
+			last := b.Instrs[len(b.Instrs)-1]
+			next := func(s *ssa.BasicBlock, it boolIter) {
+				if s == loop.Header {
+					// latch: flag edge
+					it.flagSet = 0
+					if flag != nil {
+						for ei, pb := range loop.Header.Preds {
+							if pb == b {
+								ev := flag.Edges[ei]
+								if ev == ssa.Value(flag) {
+									it.flagSet = 0
+								} else if c, isC := ev.(*ssa.Const); isC && c.Value != nil && c.Value.String() == "true" {
+									it.flagSet = 1
+								} else {
+									it.flagSet = -1
+								}
+							}
+						}
+					}
+					c := it
+					iters = append(iters, &c)
+					return
+				}
+				if !loop.Blocks[s] || on[s] {
+					return
+				}
+				on[s] = true
+				walk(s, it, on)
+				delete(on, s)
+			}
+			if ifi, ok := last.(*ssa.If); ok {
+				k, idx, neg, isM := ba.markerTest(ifi.Cond)
+				for i, s := range b.Succs {
+					n := it
+					if isM && idx == ind.Index {
+						isMarker := (i == 0) != neg
+						// the test reads the current content of the list at this member
+						cur, has := it.final[k]
+						if has && cur.kind != 2 {
+							// content already determined on this path: infeasible edge?
+							if (cur.kind == 0) != isMarker {
+								continue
+							}
+						} else {
+							kk := k
+							if has {
+								kk = cur.k
+							}
+							want := 1
+							if isMarker {
+								want = 0
+							}
+							if n.facts.elem[kk] >= 0 && n.facts.elem[kk] != want {
+								continue // infeasible
+							}
+							n.facts.elem[kk] = want
+						}
+						n.desc += fmt.Sprintf(" %s[i]%smarker", []string{"left", "right"}[k], map[bool]string{true: "==", false: "!="}[isMarker])
+					} else {
+						ba.problem("condition in the merge loop that is not a marker test of an operand's member verdict")
+						iterProblem = true
+					}
+					next(s, n)
+				}
+				return
+			}
+			for _, s := range b.Succs {
+				next(s, it)
+			}
+		}
+		walk(body, boolIter{facts: newBoolFacts(), final: map[int]boolRes{}}, map[*ssa.BasicBlock]bool{body: true})
+	}
+	// skeleton paths
+	paths, complete := enumPaths(fn, 400)
+	if !complete {
+		ba.problem("too many paths")
+	}
+	for _, fp := range paths {
+		ret, isRet := fp.exit.(*ssa.Return)
+		if !isRet {
+			ba.fail("the method can panic explicitly")
+			continue
+		}
+		facts := newBoolFacts()
+		flagFact := -1
+		feasible := true
+		throughLoop := false
+		for _, b := range fp.blocks {
+			if loop != nil && b == loop.Header {
+				throughLoop = true
+			}
+		}
+		desc := ""
+		for _, ec := range fp.conds {
+			if loop != nil && ec.at == ind.Cond {
+				continue
+			}
+			if flag != nil && ec.cond == ssa.Value(flag) {
+				flagFact = 0
+				if ec.taken {
+					flagFact = 1
+				}
+				continue
+			}
+			if k, neg, ok := ba.lenIsOne(ec.cond); ok {
+				one := ec.taken != neg
+				s := shNotOne
+				if one {
+					s = shOne
+				}
+				if facts.shape[k] != shUnknown && facts.shape[k] != s {
+					feasible = false
+				}
+				facts.shape[k] = s
+				desc += fmt.Sprintf(" len(%s)%s1", []string{"left", "right"}[k], map[bool]string{true: "==", false: "!="}[one])
+				continue
+			}
+			if k, idx, neg, ok := ba.markerTest(ec.cond); ok {
+				if c, isC := cfgutilConst(idx); isC && c == 0 {
+					if facts.shape[k] != shOne {
+						ba.fail("%s[0] is tested for the marker on a path where the list is not known to have length 1: the whole-match reading is applied to a per-member list (or an empty list is indexed)", []string{"left", "right"}[k])
+						feasible = false
+						continue
+					}
+					isMarker := ec.taken != neg
+					v := 1
+					if isMarker {
+						v = 0
+					}
+					if facts.all[k] >= 0 && facts.all[k] != v {
+						feasible = false
+					}
+					facts.all[k] = v
+					desc += fmt.Sprintf(" %s[0]%smarker", []string{"left", "right"}[k], map[bool]string{true: "==", false: "!="}[isMarker])
+					continue
+				}
+			}
+			ba.problem("condition outside the merge loop that is neither a length-1 test nor a whole-match marker test of an operand's verdict list")
+			feasible = false
+		}
+		if !feasible || len(ret.Results) != 1 {
+			continue
+		}
+		rv := fp.resolve(ret.Results[0])
+		check := func(what string, f boolFacts, res boolRes) {
+			ba.scen++
+			for _, row := range f.rows(arity) {
+				ba.checked++
+				if got, want := res.eval(row), opTable(op, row); got != want {
+					ba.fail("on the path [%s ]%s the returned list says %v (= %s) for a member with %s; `%s` requires %v", strings.TrimSpace(desc), what, got, res, rowString(arity, row), op, want)
+				}
+			}
+		}
+		if !throughLoop {
+			if res, ok := ba.sentinel(rv); ok {
+				check("", facts, res)
+			} else if k, ok := ba.operandOf(rv); ok {
+				check("", facts, boolRes{kind: 2, k: k})
+			} else {
+				ba.problem("returned value is neither an operand's verdict list nor one of the two one-element lists")
+			}
+			continue
+		}
+		if iterProblem {
+			continue
+		}
+		// merge loop on the path: the lists indexed must be per-member lists
+		need := map[int]bool{loopOver: true}
+		for _, it := range iters {
+			for k := range it.final {
+				need[k] = true
+			}
+			for k := 0; k < arity; k++ {
+				if it.facts.elem[k] >= 0 {
+					need[k] = true
+				}
+			}
+		}
+		for k := range need {
+			if facts.shape[k] != shNotOne {
+				ba.fail("the merge loop indexes the %s verdict list member by member on a path where it may be a one-element whole-match list (index out of range, or a write into a shared one-element list)", []string{"left", "right"}[k])
+			}
+		}
+		if res, ok := ba.sentinel(rv); ok {
+			// returned after the loop without a per-member list: legitimate only when no iteration set the flag
+			if flagFact != 0 {
+				ba.problem("a one-element list is returned after the merge loop on a path not guarded by the result flag")
+				continue
+			}
+			for _, it := range iters {
+				if it.flagSet == 1 {
+					continue
+				}
+				if it.flagSet == -1 {
+					ba.problem("result flag update not recognised")
+					continue
+				}
+				f := facts
+				f.elem = it.facts.elem
+				check(" / iteration ["+strings.TrimSpace(it.desc)+" ] without setting the result flag, then returning the no-match list", f, res)
+			}
+			// zero iterations: nothing to check (no member)
+			continue
+		}
+		k, ok := ba.operandOf(rv)
+		if !ok {
+			ba.problem("returned value after the merge loop is not an operand's verdict list")
+			continue
+		}
+		for _, it := range iters {
+			f := facts
+			f.elem = it.facts.elem
+			res, has := it.final[k]
+			if !has {
+				res = boolRes{kind: 2, k: k}
+			}
+			check(" / iteration ["+strings.TrimSpace(it.desc)+" ]", f, res)
+		}
+	}
+	return ba
+}
+
+// logicalNodeOps maps the logical node types to the operator the grammar wires them to:
+// binary nodes through the `&&` / `||` token -> action -> builder -> allocated type chain,
+// the unary node as the one-operand query type.
+func logicalNodeOps(c *engine.Context, r *report.Rule) map[*types.Named]string {
+	p := c.P
+	out := map[*types.Named]string{}
+	pm := pegOf(c)
+	if pm.err != "" {
+		r.InfraFail("%s", pm.err)
+		return out
+	}
+	requireRunning(r, pm)
+	isBinary := func(nt *types.Named) bool {
+		st, ok := nt.Underlying().(*types.Struct)
+		if !ok || st.NumFields() != 2 {
+			return false
+		}
+		for i := 0; i < 2; i++ {
+			if !types.Identical(st.Field(i).Type(), p.Roles.QueryIface) {
+				return false
+			}
+		}
+		return true
+	}
+	blocks, _ := actionBlocksOf(c)
+	ta := tokenActions(pm.run, []string{"||", "&&"})
+	for tok, op := range map[string]string{"&&": "and", "||": "or"} {
+		acts := ta[tok]
+		if len(acts) != 1 {
+			r.Undischarged("token `"+tok+"`: actions", pm.pegPos, "expected exactly one grammar alternative `%s … action`, found %d", tok, len(acts))
+			continue
+		}
+		// node types allocated by the builder(s) the action calls
+		found := map[*types.Named]bool{}
+		for _, b := range blocks[acts[0]] {
+			for _, ins := range b.Instrs {
+				call, ok := ins.(*ssa.Call)
+				if !ok {
+					continue
+				}
+				sc := call.Call.StaticCallee()
+				if sc == nil || sc.Blocks == nil {
+					continue
+				}
+				for _, bb := range sc.Blocks {
+					for _, i2 := range bb.Instrs {
+						if al, ok := i2.(*ssa.Alloc); ok {
+							if nt, ok := al.Type().(*types.Pointer).Elem().(*types.Named); ok && isBinary(nt) {
+								found[nt] = true
+							}
+						}
+					}
+				}
+			}
+		}
+		if len(found) != 1 {
+			r.Undischarged("token `"+tok+"`: node type", pm.pegPos, "the action of `%s` builds %d binary query node types (expected 1)", tok, len(found))
+			continue
+		}
+		for nt := range found {
+			if prev, dup := out[nt]; dup && prev != op {
+				r.Violation("tokens `&&` and `||` build the same node type "+nt.Obj().Name(), pm.pegPos, "both logical tokens build %s", nt.Obj().Name())
+			}
+			out[nt] = op
+		}
+	}
+	for _, qt := range p.Roles.QueryTypes {
+		if isNotNode(p, qt) {
+			out[qt] = "not"
+		}
+	}
+	return out
+}
+
+// ruleVBool: V-BOOL.
+func ruleVBool(c *engine.Context) *report.Rule {
+	r := report.NewRule("V-BOOL", "the logical nodes compute AND / OR / NOT of their operands' verdicts for every member on every path (truth-table check of the symbolic execution)", 3)
+	p := c.P
+	ops := logicalNodeOps(c, r)
+	comp := queryComputeFuncs(p)
+	var types_ []*types.Named
+	for nt := range ops {
+		types_ = append(types_, nt)
+	}
+	sort.Slice(types_, func(i, j int) bool { return types_[i].Obj().Name() < types_[j].Obj().Name() })
+	seenOp := map[string]bool{}
+	for _, nt := range types_ {
+		op := ops[nt]
+		seenOp[op] = true
+		r.Instances++
+		var fn *ssa.Function
+		var list *ssa.Parameter
+		for f, l := range comp {
+			rt := f.Signature.Recv().Type()
+			if pt, ok := rt.(*types.Pointer); ok {
+				rt = pt.Elem()
+			}
+			if types.Identical(rt, nt) {
+				fn, list = f, l
+			}
+		}
+		if fn == nil {
+			r.Oblige(false)
+			r.Undischarged(nt.Obj().Name()+": evaluation method", "-", "no evaluation method found for logical node %s", nt.Obj().Name())
+			continue
+		}
+		arity := 2
+		if op == "not" {
+			arity = 1
+		}
+		ba := analyseBoolNode(p, fn, list, arity, op)
+		ok := len(ba.problems) == 0 && len(ba.failures) == 0 && ba.checked > 0
+		r.Oblige(ok)
+		r.Nontrivial++
+		r.Sample("%s realises `%s`: %d scenarios, %d truth-table rows checked, failures %d, unrecognised %d", load.FuncName(fn), op, ba.scen, ba.checked, len(ba.failures), len(ba.problems))
+		fails := uniqSorted(ba.failures)
+		for i, m := range fails {
+			if i >= 3 {
+				break
+			}
+			f := r.Violation(fmt.Sprintf("%s is not `%s` (%d)", load.FuncName(fn), op, i+1), p.RelPos(fn.Pos()), "%s", m)
+			engine.Restrict(f, boolProps(m)...)
+		}
+		probs := uniqSorted(ba.problems)
+		for i, m := range probs {
+			if i >= 2 {
+				break
+			}
+			r.Undischarged(fmt.Sprintf("%s: shape (%d)", load.FuncName(fn), i+1), p.RelPos(fn.Pos()), "the evaluation method of the `%s` node has a shape the truth-table check does not understand: %s", op, m)
+		}
+		if len(fails) == 0 && len(probs) == 0 && ba.checked == 0 {
+			r.Undischarged(load.FuncName(fn)+": nothing checked", p.RelPos(fn.Pos()), "no truth-table row could be checked")
+		}
+	}
+	for _, op := range []string{"and", "or", "not"} {
+		if !seenOp[op] {
+			r.Oblige(false)
+			r.Undischarged("operator `"+op+"`: node", "-", "no node type found for the `%s` operator", op)
+		}
+	}
+	return r
+}
+
+// boolProps: which properties a V-BOOL failure concerns.
+func boolProps(msg string) []string {
+	props := []string{"C09"}
+	if strings.Contains(msg, "index out of range") || strings.Contains(msg, "empty list is indexed") {
+		props = append(props, "C03")
+	}
+	if strings.Contains(msg, "shared one-element list") {
+		props = append(props, "C03", "C05", "C06", "C19")
+	}
+	return props
 }
